@@ -207,7 +207,14 @@ def run(prop, tier, rep):
         if line in seen:
             continue
         seen.add(line)
+        npre = 0
+        if width == 32 and (name in encsweep.B_NAMES or name == 'jal') and (k * 7919 >> 3) % 3 == 0:
+            # a transfer written with a NUMBER is that pc-relative offset wherever the line stands: not only at address 0
+            npre = 1 + (k >> 2) % 3
+            line = 'addi x0, x0, 0\n' * npre + line
         st, b = assemble_line(asm, line)
+        if st == 'ok' and npre:
+            b = b[4 * npre:] if b[:4 * npre] == bytes.fromhex('13000000') * npre else b
         iops = encsweep.intent_ops(ops)
         if iops is None:
             # some operand names nothing at all (a register number that is no register): there is no instruction to decode to
